@@ -69,12 +69,14 @@ class ABADecomposer(Decomposer, ABC):
             else:
                 p = math.pi
                 theta2 = 2 * math.acos(a_axis_value)
-                if abs(a_axis_value - 1) < ATOL or abs(a_axis_value + 1) < ATOL:
+                if abs(math.sin(theta2 / 2)) < ATOL:
                     m = p  # This can be anything, but setting m = p means theta3 == 0, which is better for gate count.
                 else:
-                    m = 2 * math.acos(
-                        round(b_axis_value / math.sqrt(1 - a_axis_value**2), abs(math.floor(math.log10(ATOL)))),
-                    )
+                    acos_argument = float(b_axis_value) / math.sin(theta2 / 2)
+
+                    # This fixes float approximations like 1.0000000000002, which acos does not like.
+                    acos_argument = max(min(acos_argument, 1.0), -1.0)
+                    m = 2 * math.acos(acos_argument)
                     m = math.copysign(m, c_axis_value)
 
         else:
